@@ -266,12 +266,77 @@ def desugar_once(body, bi, cb, kind):
     return inline_once(nb, n_call, cb)
 
 
+def desugar_fold(body, bi, cb):
+    """it.fold(init, |acc, x| F(acc, x))  ==  acc = init; loop { match it.next() { None => break, Some(x) => acc = F(acc, x) } }; acc"""
+    j = copy.deepcopy(body.j)
+    t = j['blocks'][bi]['term']
+    span = j['blocks'][bi]['tspan']
+    target, dest = t['target'], t['dest']
+    a_it, a_init, a_clo = t['args'][0], t['args'][1], t['args'][2]
+    clo_local = (a_clo.get('move') or a_clo.get('copy'))['l']
+    env_ty, acc_ty, item_ty = cb.locals[1]['ty'], cb.locals[2]['ty'], cb.locals[3]['ty']
+
+    def new_local(ty, name=None):
+        j['locals'].append({'ty': ty, 'name': name, 'mut': True})
+        return len(j['locals']) - 1
+
+    def assign(l, rv):
+        return {'k': 'assign', 'place': {'l': l, 'p': []}, 'rv': rv, 'span': span}
+
+    def blk(stmts, term):
+        return {'stmts': stmts, 'term': term, 'tspan': span, 'cleanup': False}
+    itp = a_it.get('move') or a_it.get('copy')
+    if itp is not None and not itp['p']:
+        it = itp['l']
+    else:
+        it = new_local(t['func'].get('self_ty') or 'iter')
+        j['blocks'][bi]['stmts'].append(assign(it, {'k': 'use', 'op': a_it}))
+    acc = new_local(acc_ty)
+    j['blocks'][bi]['stmts'].append(assign(acc, {'k': 'use', 'op': a_init}))
+    it_ref = new_local('&mut ' + j['locals'][it]['ty'])
+    opt = new_local('std::option::Option<%s>' % item_ty)
+    disc = new_local('isize')
+    item = new_local(item_ty)
+    env = new_local(env_ty)
+    tmp = new_local(acc_ty)
+    n0 = len(j['blocks'])
+    n_next, n_sw, n_call, n_back, n_end = n0, n0 + 1, n0 + 2, n0 + 3, n0 + 4
+    j['blocks'][bi]['term'] = {'k': 'goto', 'target': n_next}
+    j['blocks'].append(blk([assign(it_ref, {'k': 'ref', 'mut': True, 'place': {'l': it, 'p': []}})],
+                           {'k': 'call', 'func': {'path': 'std::iter::Iterator::next', 'full': 'std::iter::Iterator::next', 'name': 'next',
+                                                  'trait': 'std::iter::Iterator', 'gargs': []},
+                            'args': [{'move': {'l': it_ref, 'p': []}}], 'dest': {'l': opt, 'p': []}, 'target': n_sw, 'unwind': None}))
+    j['blocks'].append(blk([assign(disc, {'k': 'discr', 'place': {'l': opt, 'p': []}})],
+                           {'k': 'switch', 'discr': {'move': {'l': disc, 'p': []}}, 'targets': [['0', n_end], ['1', n_call]], 'otherwise': n_end}))
+    some0 = {'l': opt, 'p': [{'down': 1, 'name': 'Some'}, {'f': 0, 'name': '0', 'ty': item_ty}]}
+    j['blocks'].append(blk([assign(item, {'k': 'use', 'op': {'move': some0}}),
+                            assign(env, {'k': 'ref', 'mut': env_ty.startswith('&mut'), 'place': {'l': clo_local, 'p': []}})],
+                           {'k': 'call', 'func': {'path': cb.path, 'full': cb.path, 'name': 'call', 'gargs': []},
+                            'args': [{'move': {'l': env, 'p': []}}, {'move': {'l': acc, 'p': []}}, {'move': {'l': item, 'p': []}}],
+                            'dest': {'l': tmp, 'p': []}, 'target': n_back, 'unwind': None}))
+    j['blocks'].append(blk([assign(acc, {'k': 'use', 'op': {'move': {'l': tmp, 'p': []}}})], {'k': 'goto', 'target': n_next}))
+    j['blocks'].append(blk([{'k': 'assign', 'place': dest, 'rv': {'k': 'use', 'op': {'move': {'l': acc, 'p': []}}}, 'span': span}],
+                           {'k': 'goto', 'target': target}))
+    nb = Body(j, body.crate)
+    return inline_once(nb, n_call, cb)
+
+
 def desugar_adaptors(body, crate, max_rounds=8):
     cur = body
     used = set()
     for _ in range(max_rounds):
         did = False
         for bi, t in list(cur.calls()):
+            if t['func'].get('path') == 'std::iter::Iterator::fold' and len(t['args']) == 3 and t['target'] is not None:
+                cp = t['args'][2].get('move') or t['args'][2].get('copy')
+                path = _closure_of(cur, cp['l']) if cp is not None and not cp['p'] else None
+                cb = crate.body(path) if path else None
+                if cb is not None and cb.arg_count == 3:
+                    cur = desugar_fold(cur, bi, cb)
+                    used.add(path)
+                    did = True
+                    break
+                continue
             kind = ADAPTORS.get(t['func'].get('path'))
             if kind is None or len(t['args']) != 2 or t['target'] is None:
                 continue
